@@ -63,8 +63,8 @@ Notation lastop := (lastop bin_prec un_prec op_receive op_pointer).
 Notation wrapped_un := (wrapped_un bin_prec un_prec op_receive).
 Notation wrapped_bin := (wrapped_bin bin_prec un_prec).
 Notation cost := (cost bin_prec un_prec op_receive op_pointer).
-Notation need := (need bin_prec un_prec op_receive op_pointer).
-Notation full := (full bin_prec un_prec op_receive op_pointer).
+Notation need := (need bin_prec un_prec op_receive op_pointer expanded).
+Notation full := (full bin_prec un_prec op_receive op_pointer expanded).
 Notation FE := ExprFull_eqs.FE.
 Notation FT := ExprFull_eqs.FT.
 
@@ -943,6 +943,8 @@ Proof.
   assert (hrun : forall k, (needelems kvs <= k)%nat ->
             pelems k (toks (sep_by comma_sp ls) ++ KRBrace :: rest) = ROk (map normkv kvs, KRBrace :: rest)).
   { intros k hk. apply elems_run; assumption. }
+  assert (hneed : forall k, ((if expanded then needelems kvs else 3) <= k)%nat -> (needelems kvs <= k)%nat).
+  { intros k hk. destruct expanded; [exact hk|]. cbn [orb] in hexp. destruct kvs; [exact hk|discriminate]. }
   destruct t as [t'|]; cbn [omap opt_pieces Qo] in *.
   - apply andb_prop in ht. destruct ht as [ht hx].
     apply andb_prop in ht. destruct ht as [hnop hnd]. apply negb_true_iff in hnop.
@@ -952,13 +954,13 @@ Proof.
     rewrite andb_true_r, FL_false. norm_toks.
     replace (S (cost false t') + n)%nat with (cost false t' + S n)%nat by lia.
     rewrite h by lia. rewrite pt_lbrace by (rewrite parens_norm; reflexivity).
-    rewrite hrun by (unfold needelems; unfold ExprFull_base.full in *; lia). reflexivity.
+    rewrite hrun by (apply hneed; unfold needelems, ExprFull_base.full; lia). reflexivity.
   - injection ept as <-. subst el.
     exists false. intros n hn.
     cbn [ExprFull_base.cost ExprFull_base.need ExprFull_base.spine ExprFull_base.lastop ExprFull_base.norm is_operator negb app omap] in *.
     rewrite andb_true_r, FL_false. norm_toks.
     change (2 + n)%nat with (S (S n)). rewrite po_elided, pt_lbrace by reflexivity.
-    rewrite hrun by (unfold needelems; unfold ExprFull_base.full in *; lia). reflexivity.
+    rewrite hrun by (apply hneed; unfold needelems, ExprFull_base.full; lia). reflexivity.
 Qed.
 
 (* ---- an expression does not start with a token that ends one ---- *)
@@ -1738,10 +1740,10 @@ Proof.
   - change (params_pieces false (q :: q2 :: r')) with (param_pieces q :: params_pieces false (q2 :: r')). rewrite IH. reflexivity.
 Qed.
 
-Definition bare_need (rs : list param) : nat := match rs with [(None, Some t)] => full true t | _ => 0%nat end.
+Definition resneed (rs : list param) : nat := match rs with [(None, Some t)] => full true t | _ => needpl rs end.
 
 Lemma need_func ty p macro ps rs v :
-  need ty (XFunc p macro ps rs v) = (8 + needpl ps + needpl rs + bare_need rs)%nat.
+  need ty (XFunc p macro ps rs v) = (8 + needpl ps + resneed rs)%nat.
 Proof. reflexivity. Qed.
 
 Lemma A_func p macro ps rs v :
@@ -1761,7 +1763,7 @@ Proof.
   { intros -> ->. cbn in hv. discriminate hv. }
   (* the results *)
   assert (hR : exists pr, pcs = ExprFullM.T (KKw (if macro then WMacro else WFunc)) ++ ExprFullM.T KLP ++ pa ++ ExprFullM.T KRP ++ pr /\
-            forall m, (2 + needpl rs + bare_need rs <= m)%nat ->
+            forall m, (2 + resneed rs <= m)%nat ->
               exists ropt, pparams m macro true (toks pr ++ rest) = ROk (ropt, false, rest) /\
                 match ropt with Some r => r | None => [] end = map normq rs /\ (macro = true -> ropt <> None)).
   { assert (hlist : forall pr, rs <> [] ->
@@ -1806,7 +1808,7 @@ Proof.
         destruct (first_tok_cons t pt ept) as [t0 [r0 [h1 h2]]]. rewrite h2 in hst. cbn [ExprFullOk.starts_result_o] in hst.
         destruct m as [|k]; [lia|]. rewrite h1. cbn [app]. rewrite pparams_result_bare by exact hst.
         rewrite (app_comm_cons r0 rest t0), <- h1.
-        rewrite (B_type t hAt false true nxt pt rest k hokt ept hnxt) by (unfold needpl, bare_need in hm; cbn [fold_right] in hm; lia).
+        rewrite (B_type t hAt false true nxt pt rest k hokt ept hnxt) by (unfold resneed in hm; lia).
         reflexivity.
       + destruct (join_opt comma_sp _) as [pr|] eqn:epr in hpp; [|discriminate]. injection hpp as <-.
         eexists. split; [rewrite <- !app_assoc; reflexivity|]. intros m hm. apply hlist; first [assumption | discriminate | reflexivity | lia].
@@ -1817,7 +1819,7 @@ Proof.
   exists c. intros n hn. rewrite need_func in hn.
   cbn [ExprFull_base.cost ExprFull_base.spine ExprFull_base.lastop ExprFull_base.norm is_operator negb app] in *.
   change (1 + n)%nat with (S n). rewrite andb_true_r. norm_toks.
-  assert (hfuel : (6 + needpl ps + needpl rs + bare_need rs <= n)%nat) by lia.
+  assert (hfuel : (6 + needpl ps + resneed rs <= n)%nat) by lia.
   destruct n as [|n1]; [lia|]. destruct n1 as [|n2]; [lia|].
   assert (hparse : forall lit, (lit = true -> match rest with KLBrace :: _ => False | _ => True end) ->
              pfunc (S (S n2)) macro lit (KLP :: toks pa ++ KRP :: toks pr ++ rest) =
